@@ -122,6 +122,14 @@ class ABCARMPropertyGraph(ABCPropertyGraph):
         # which delegations are specified.
         unique_delegation_ids, keep_nodes_sets, delegations_by_node = self.catalog_delegations()
 
+        # caller-supplied graph ids must not name this ARM graph (the clone would replace and then prune it)
+        # and must be pairwise distinct (a later ADM would replace an earlier one)
+        if delegation_guids:
+            supplied = [delegation_guids[del_id] for del_id in unique_delegation_ids if del_id in delegation_guids]
+            if self.graph_id in supplied or len(set(supplied)) != len(supplied):
+                raise PropertyGraphQueryException(graph_id=self.graph_id, node_id=None,
+                                                  msg="delegation_guids must be distinct and differ from the ARM graph id")
+
         # generate unique graph ids and empty node sets for ADM graphs
         # add stitch nodes as keep nodes to all ADMs
         # NOTE: we overwrite delegation GUID if one is available for a specific delegation name (delegation_id)
